@@ -303,7 +303,7 @@ func c05FailParks(c *Ctx, m *Module) {
 		}
 		clears := false
 		for _, cs := range callsIn(a) {
-			if strings.Contains(calleeName(cs.Common()), "Pointer[") && strings.Contains(calleeName(cs.Common()), ".Store") && isNilConst(cs.Common().Args[1]) {
+			if strings.Contains(calleeName(cs.Common()), "Pointer[") && strings.Contains(calleeName(cs.Common()), ".Store") && isNilConst(argsOf(cs)[1]) {
 				clears = true
 			}
 		}
@@ -485,14 +485,14 @@ func c05Wrap(c *Ctx, m *Module) {
 			continue
 		}
 		call := cs.(*ssa.Call)
-		arg := call.Call.Args[0]
+		arg := argsOf(call)[0]
 		n++
 		// accepted: some call round(arg, unit) with the same arg whose result is compared "< arg" leading to an error return,
 		// dominating this use; or this very call is that guard.
 		guarded := false
 		for _, cs2 := range callsIn(ext) {
 			c2, ok := cs2.(*ssa.Call)
-			if !ok || calleeName(&c2.Call) != nm || c2.Call.Args[0] != arg {
+			if !ok || calleeName(&c2.Call) != nm || argsOf(c2)[0] != arg {
 				continue
 			}
 			for _, u := range referrers(c2) {
@@ -659,7 +659,7 @@ func c05Mutex(c *Ctx, m *Module, fns []*ssa.Function) {
 				continue
 			}
 			n++
-			mu := describe(cs.Common().Args[0])
+			mu := describe(argsOf(cs)[0])
 			unlockName := strings.Replace(strings.Replace(calleeName(cs.Common()), ".Lock", ".Unlock", 1), ".RLock", ".RUnlock", 1)
 			isUnlock := func(in ssa.Instruction) bool {
 				cc := callOf(in)
